@@ -701,14 +701,21 @@ def check(model, rep, tier):
             {'sites': shr},
             witness='loop body ending in try/finally whose try has a break '
             'under an if')
-  aj = gb.methods.get('_add_jump_node')
-  ap = aj.params()
-  n1, b1 = pat.first(aj.node, '_N_ = self._add_new_node(%s)' % ap[0])
-  ok = b1 is not None and pat.has(aj.node, 'self.leaves = set()') and pat.has(
-      aj.node, 'self.finally_sections[_N_] = %s' % ap[1], b1)
-  rep.check(ok, 'CFG-LEAVES', '%s:jump-empties-leaves' % aj.site,
-            'a jump node must empty the leaf set (nothing follows it lexically) '
-            'and remember its finally guards', line=aj.node.lineno)
+  # both kinds of jump node (exit, continue), with the private helper they may
+  # share expanded into them
+  for ename in ('add_exit_node', 'add_continue_node'):
+    e = gb.methods.get(ename)
+    if e is None:
+      raise core.AnalysisError('GraphBuilder.%s not found' % ename)
+    ev_ = e.view(only=('_add_jump_node',))
+    eps = e.params()
+    ast_p, guards_p = eps[0], eps[-1]
+    n1, b1 = pat.first(ev_, '_N_ = self._add_new_node(%s)' % ast_p)
+    ok = b1 is not None and pat.has(ev_, 'self.leaves = set()') and pat.has(
+        ev_, 'self.finally_sections[_N_] = %s' % guards_p, b1)
+    rep.check(ok, 'CFG-LEAVES', '%s:jump-empties-leaves' % e.site,
+              'a jump node must empty the leaf set (nothing follows it lexically) '
+              'and remember its finally guards', line=e.node.lineno)
 
 
 def mirror_rule(model, rep, rule):
@@ -779,16 +786,18 @@ def mirror_rule(model, rep, rule):
              core.norm(n.iter) == 'self.forward_edges' and isinstance(n.target, ast.Tuple)
              and len(n.target.elts) == 2]:
     a, b = [core.norm(e) for e in lp.target.elts]
-    n1, b1 = pat.first(lp, '_X_ = self.owners[%s] - self.owners[%s]' % (a, b))
-    n2, b2 = pat.first(lp, '_Y_ = self.owners[%s] - self.owners[%s]' % (b, a))
-    if b1 and b2:
-      okx = any(isinstance(l, ast.For) and core.norm(l.iter) == b1['_X_'] and
-                pat.has(l, '_NX_[%s].add(%s)' % (core.norm(l.target), b))
-                for l in ast.walk(lp))
-      oky = any(isinstance(l, ast.For) and core.norm(l.iter) == b2['_Y_'] and
-                pat.has(l, '_PV_[%s].add(%s)' % (core.norm(l.target), a))
-                for l in ast.walk(lp))
-      ok = okx and oky
+    okx = oky = False
+    for l in ast.walk(lp):
+      if not (isinstance(l, ast.For) and l is not lp and isinstance(l.target, ast.Name)):
+        continue
+      it = tpl.xnorm(bld, l.iter, l.iter)      # locals that name the operands resolved
+      if it == 'self.owners[%s] - self.owners[%s]' % (a, b) and pat.has(
+          l, '_NX_[%s].add(%s)' % (l.target.id, b)):
+        okx = True
+      if it == 'self.owners[%s] - self.owners[%s]' % (b, a) and pat.has(
+          l, '_PV_[%s].add(%s)' % (l.target.id, a)):
+        oky = True
+    ok = ok or (okx and oky)
   rep.check(ok, rule, '%s:statement-edges-from-forward-edges' % bld.site,
             'stmt_next / stmt_prev must be exactly the forward edges that leave '
             '/ enter a statement\'s owned nodes', line=bld.node.lineno)
